@@ -80,6 +80,8 @@ def main(tier):
         # ... and whatever the is_leaf tests do while flattening (a PyTree member of a union rejecting a subtree)
         P.run_table(chk, "C09", BIND_U2, "bind-union-pytree", ["Rollback", "Monotone", "Idempotent"])
         if tier == "thorough":
+            from . import suite
+            suite.validate_suite_pytrees(chk, "C09")      # the PyTree checks of the repository's own tests
             for i, u in enumerate(THOROUGH):
                 n2, nb2 = P.run_table(chk, "C09", u, f"thorough{i}", P.STRUCT_INVS)
                 nb += nb2
